@@ -156,6 +156,25 @@ pub fn fresh() -> Live {
     }
 }
 
+/// an empty context obtained the other ways the API offers: `Default`, and what `std::mem::take` leaves behind
+pub fn fresh_kind(k: u64) -> Live {
+    let ctx = match k % 4 {
+        0 | 1 => Ctx::new(),
+        2 => Ctx::default(),
+        _ => {
+            let mut used = Ctx::new();
+            let _ = used.set_value("a".into(), evalexpr::Value::Int(1));
+            let _ = used.set_builtin_functions_disabled(true);
+            let _taken = std::mem::take(&mut used);
+            used
+        },
+    };
+    Live {
+        ctx,
+        model: Model::new(),
+    }
+}
+
 fn expected_type_error(t: Ty, v: &RV) -> EvalexprError {
     let actual = v.to_value();
     match t {
@@ -520,7 +539,7 @@ impl Phase for Histories {
         let names = if idx % 3 == 0 { &all_names[..] } else { &all_names[..5] };
         let steps = r.range(50, 300);
         out.begin(|| format!("random history #{} of {} steps", idx, steps));
-        let mut lives: Vec<Live> = vec![fresh()];
+        let mut lives: Vec<Live> = vec![fresh_kind(idx / 3)];
         let mut hist: Vec<String> = Vec::new();
         let pool = crate::gen::full_pool();
         let lit_pool: Vec<RV> = pool.iter().filter(|v| v.literal().is_some()).cloned().collect();
